@@ -26,7 +26,7 @@ func init() {
 		Run: func(c *Ctx, tier string) []*Result {
 			drop, handle := c.RuleErrCached()
 			return []*Result{drop, handle, c.RuleErrFlags(), c.RuleErrLog(), c.RuleErrEvent(), c.RuleErrExit(), c.RuleValidate(), c.RuleIsoFresh(), c.RuleFsWriteDiscipline(), c.RuleNarrow(), c.RuleSiblingRuleId(), c.RuleFlagsReject(), c.RuleProcStart(), c.RuleWalkErr(),
-				c.RuleWalkSkip("update", "compare", "format", "renumber-tests", "update-copyright"), c.RuleWalkFilter("update", "compare", "format", "renumber-tests", "update-copyright"), c.RuleNoRecover(), c.RuleErrWrap(), c.RuleValidateStore(), keyHas(c.RuleRxRebuild(), 0, "regex.FlagsRegex"), c.RuleRxGrammar(), c.RuleStdoutPure(), c.RuleSearchResume(), c.RuleCmdTypeEnum(), c.RuleGoShared(), c.RuleCtorDefaults(), c.RuleErrorfNil(), c.RuleSplitJoinFrame(), c.RuleCompareVerdict()}
+				c.RuleWalkSkip("update", "compare", "format", "renumber-tests", "update-copyright"), c.RuleWalkFilter("update", "compare", "format", "renumber-tests", "update-copyright"), c.RuleNoRecover(), c.RuleErrWrap(), c.RuleValidateStore(), keyHas(c.RuleRxRebuild(), 0, "regex.FlagsRegex"), c.RuleRxGrammar(), c.RuleStdoutPure(), c.RuleSearchResume(), c.RuleCmdTypeEnum(), c.RuleGoShared(), c.RuleCtorDefaults(), c.RuleErrorfNil(), c.RuleSplitJoinFrame(), c.RuleCompareVerdict(), c.RuleLocComment()}
 		},
 	}
 }
